@@ -568,7 +568,7 @@ func durGrid() []kc.Dur {
 }
 
 // gridCases enumerates single-feature files.
-func gridCases(seed uint64) []Case {
+func gridCases(seed uint64, layouts int) []Case {
 	var models []kc.Model
 	add := func(m kc.Model) { models = append(models, m) }
 	withBase := func(e ...kc.LibEntry) kc.Model {
@@ -729,7 +729,7 @@ func gridCases(seed uint64) []Case {
 	add(modelOf(baseLib, []kc.Realm{two}, nil))
 
 	// domain_realm forms
-	add(modelOf(baseLib, nil, []kc.Mapping{{".example.com", "EXAMPLE.COM"}, {"example.com", "EXAMPLE.COM"}, {"host.example.com", "OTHER.REALM"}, {".b", "lowercase.org"}, {"single", "X"}}))
+	add(modelOf(baseLib, nil, []kc.Mapping{{Domain: ".example.com", Realm: "EXAMPLE.COM"}, {Domain: "example.com", Realm: "EXAMPLE.COM"}, {Domain: "host.example.com", Realm: "OTHER.REALM"}, {Domain: ".b", Realm: "lowercase.org"}, {Domain: "single", Realm: "X"}}))
 
 	// unknown sections (with relations that shadow known ones, and nested blocks) in every section order
 	other := []kc.Section{{Name: "logging", Lines: []kc.Line{{Key: "kdc", Value: "FILE:/var/log/krb5kdc.log"}, {Key: "default_realm", Value: "WRONG.REALM"}, {Key: "forwardable", Value: "maybe"}}},
@@ -750,7 +750,9 @@ func gridCases(seed uint64) []Case {
 	out := make([]Case, 0, 2*len(models))
 	for i, m := range models {
 		out = append(out, Case{Kind: "load", Model: m})
-		out = append(out, Case{Kind: "load", Model: m, Layout: seedLayout(seed, fmt.Sprint("grid/", i))})
+		for k := 0; k < layouts; k++ {
+			out = append(out, Case{Kind: "load", Model: m, Layout: seedLayout(seed, fmt.Sprint("grid/", i, "/", k))})
+		}
 	}
 	return out
 }
@@ -785,7 +787,7 @@ func invalidGrid(seed uint64) []Case {
 		if kind == "unterminated-nested-block" {
 			realms = []kc.Realm{blockRealm, baseRealm2()}
 		}
-		m := modelOf(lib, realms, []kc.Mapping{{".example.com", "EXAMPLE.COM"}, {"example.com", "EXAMPLE.COM"}})
+		m := modelOf(lib, realms, []kc.Mapping{{Domain: ".example.com", Realm: "EXAMPLE.COM"}, {Domain: "example.com", Realm: "EXAMPLE.COM"}})
 		return m
 	}
 	var out []Case
@@ -816,6 +818,36 @@ func invalidGrid(seed uint64) []Case {
 // resolution
 
 var resolveUniverse = []string{".b", ".a.b", ".b.a.b", ".a.b.a.b", "a.b", "b.a.b", ".a"}
+
+// seededUniverse builds a 7-mapping universe as a pure function of (seed, k): the chain of dotted
+// suffixes of a seeded depth-4 name over {a,b} (so that several mappings match one host), two exact
+// host names on that chain, and two further names drawn from all names of depth <= 3.
+func seededUniverse(seed uint64, k int) []string {
+	b := kgen.DetBytes(seed, fmt.Sprint("c16/universe/", k), 64)
+	l := make([]string, 4)
+	for i := range l {
+		l[i] = string(rune('a' + b[i]%2))
+	}
+	out := []string{"." + l[3], "." + l[2] + "." + l[3], "." + l[1] + "." + l[2] + "." + l[3], l[1] + "." + l[2] + "." + l[3], strings.Join(l, ".")}
+	have := map[string]bool{}
+	for _, o := range out {
+		have[o] = true
+	}
+	pool := []string{}
+	for _, h := range hostsOver([]string{"a", "b"}, 3) {
+		for _, c := range []string{h, "." + h} {
+			if !have[c] {
+				pool = append(pool, c)
+			}
+		}
+	}
+	for i := 4; len(out) < 7; i++ {
+		j := int(b[i]) % len(pool)
+		out = append(out, pool[j])
+		pool = append(pool[:j], pool[j+1:]...)
+	}
+	return out
+}
 
 func hostsOver(labels []string, depth int) []string {
 	var out []string
@@ -896,7 +928,7 @@ func lookupGrid() []Case {
 						its = append(its, srvItems("admin_server", []string{"adm1.example.com", "adm2"}[:adm], []int{749, 0}, -1)...)
 						its = append(its, srvItems("kpasswd_server", []string{"kp1.example.com", "kp2"}[:kp], []int{464, 4464}, -1)...)
 						m := modelOf(baseLib, []kc.Realm{{Name: "EXAMPLE.COM", Items: its}, baseRealm2(), {Name: "EMPTY.REALM"}}, nil)
-						out = append(out, Case{Kind: "lookup", Model: m, Reps: 6})
+						out = append(out, Case{Kind: "lookup", Model: m, Reps: 24})
 					}
 				}
 			}
